@@ -173,6 +173,20 @@ func shortList(ds []string) []string {
 }
 
 func (s *c07State) sweep(subjects []string) {
+	// tags are not what C07 is about, but referrers responses share the index with them: whatever happens to the
+	// responses, every tag of the model still resolves to its manifest (C03 seen from the referrers side)
+	for _, rn := range c07Repos {
+		mr := s.repo(rn)
+		for tg, d := range mr.tags {
+			if mr.fuzzy[d] {
+				continue
+			}
+			r := s.do("HEAD", "/v2/"+rn+"/manifests/"+tg, nil, hdr("Accept", acceptAll))
+			if r.code != 200 || r.hdr.Get("Docker-Content-Digest") != d {
+				s.fail("tag-lost", "tag %s of %s answers %d %s, the model holds %s", tg, rn, r.code, short(r.hdr.Get("Docker-Content-Digest")), short(d))
+			}
+		}
+	}
 	for _, rn := range c07Repos {
 		for _, sd := range subjects {
 			if s.repo(rn).refFuzzy[sd] {
@@ -508,13 +522,18 @@ func c07Property(t *rapid.T, st *Stats) {
 			rn := rapid.SampledFrom(c07Repos).Draw(t, "repo")
 			sd := rapid.SampledFrom(sortedKeys(e.subjects)).Draw(t, "subject")
 			mr := e.repo(rn)
-			if mr.refFuzzy[sd] || len(s.wantSet(rn, sd, "")) == 0 {
+			if mr.refFuzzy[sd] {
 				t.Skip("no listing to copy")
 			}
+			// (an empty listing is copied too: the stored response of a subject whose last referrer was deleted is the
+			// canonical empty index, and a tag on those bytes shares its digest)
 			g := e.do("GET", "/v2/"+rn+"/referrers/"+sd, nil, nil)
 			var idx mbody
-			if g.code != 200 || json.Unmarshal(g.body, &idx) != nil || len(idx.Manifests) == 0 {
-				t.Skip("empty listing")
+			if g.code != 200 || json.Unmarshal(g.body, &idx) != nil {
+				t.Skip("no listing")
+			}
+			if len(idx.Manifests) == 0 {
+				e.class("empty-listing-copied")
 			}
 			mm := &mman{raw: g.body, mt: mtIndex, isIndex: true}
 			for _, x := range idx.Manifests {
